@@ -96,3 +96,27 @@ Proof. exact @C06_no_literal_path_lists_nothing_partial. Qed.
 Print Assumptions C06_exact_on_direct_checks_partial.
 Print Assumptions C06_exact_tool_reading.
 Print Assumptions C06_no_accepting_path_lists_nothing_partial.
+
+(* ------------------------------------------------------------------------------------------------------------
+   Extension (third round): the operand-order / constant-extraction WRAPPER of this domain is REGENERATED from the Python
+   source (tools/translate_single.py -> Gen/SingleGen.v, in an exception monad) and proved equal to the model's wrapper on
+   every comparison of table arity (Lemmas/SingleGenLemmas.v): an edit of the wrapper in /repo changes the subject of
+   these theorems on the next run. *)
+From Coq Require Import List String NArith ZArith Bool Arith.
+From Tealer Require Import Tables Leaves LeafPrelude Syntax Parse Cfg StackAst Keys KeysGen SingleGen Analysis Domains Eval LeafLemmas SingleLemmas ExecLemmas TypeLemmas SingleGenLemmas.
+
+Theorem C06_wrapper_regenerated :
+  forall (size : bool) (intcs : option (list N)) (op : instr) (pos : nat) (args : list sval),
+       stack_pop_size op = Some (Datatypes.length args) -> int_single_gen size intcs op pos args = Some (int_single size intcs op pos args).
+Proof. exact @int_single_gen_eq_table. Qed.
+
+Theorem C06_wrapper_regenerated_sound_partial :
+  forall (sz : bool) (e : env) (op : instr) (pos : nat) (args : list sval) (b : bool) (r : list Z * list Z),
+       env_ok e ->
+       leaf_truth e op args = Some b ->
+       mirrored_ordered sz (e_intcs e) op args = false ->
+       int_single_gen sz (e_intcs e) op pos args = Some r -> In (int_value sz e) (if b then fst r else snd r).
+Proof. exact @int_single_gen_sound_partial. Qed.
+
+Print Assumptions C06_wrapper_regenerated.
+Print Assumptions C06_wrapper_regenerated_sound_partial.
